@@ -22,9 +22,10 @@ SPEC = {
              "dataflows were executed; distinct = distinct case."),
     "shards": {"quick": 16, "thorough": 16},
     "min_counts": {"quick": {"evaluations": 150, "kernel_runs": 4000, "leaf_bodies": 20000, "tiled_runs": 1000,
-                             "lf_runs": 1000}},
+                             "lf_runs": 1000, "uformat_runs": 300, "estimated_shape_runs": 300}},
     "assumptions": [
         "integer payloads, leaf default 0 (the idiom's zero-product filter is defined for 0)",
+        "each index variable is tiled at most once (two-level tilings of one rank are not generated); no halos",
         "explicit zeros in the output are not a difference (content map)",
         "tiling is applied to every operand that carries the index and to the output; results are compared after mapping tile coordinates away",
     ],
@@ -38,6 +39,17 @@ def generate(rng, tier, shard, nshards, mon):
         fam = fams[(i * nshards + shard) % len(fams)] if i < 2 * len(fams) else rng.choice(fams)
         spec = kernels.rand_spec(rng, family=fam, tiles=False)
         vs = kernels.variables(spec)
+        r = rng.random()
+        if r < 0.2:
+            spec["noshape"] = True          # operands whose shapes are estimates
+        elif r < 0.45:
+            # uncompressed-format operand ranks (zero-valued operands reach the body)
+            fm = []
+            for name, idx in spec["ops"]:
+                for x in idx:
+                    if rng.random() < 0.4:
+                        fm.append([name, kernels.rid(x)])
+            spec["fmts"] = fm
         tiles = []
         for _ in range(2 if tier == "quick" else 4):
             v = rng.choice(vs)
@@ -79,6 +91,10 @@ def run_case(case, mon):
                     mon.count("leaf_bodies", nb)
                     if tiles:
                         mon.count("tiled_runs")
+                    if base.get("fmts"):
+                        mon.count("uformat_runs")
+                    if base.get("noshape"):
+                        mon.count("estimated_shape_runs")
                     if style == "leader-follower":
                         mon.count("lf_runs")
                     mon.check(got == want, f"kernel:result:{tag}",
